@@ -5,7 +5,7 @@
   `validate()`; `H` is the digest function (SHA-1 is a parameter, so "a changed byte is detected"
   carries the explicit hypothesis that `H` separates the two piece contents).
 -/
-import Torf.Lemmas.VerifyRun
+import Torf.Lemmas.VerifySingle
 namespace Torf.C02
 open Torf Torf.Missing Torf.Verify
 
@@ -284,6 +284,124 @@ example : verifySeq (fun p : List Nat => p) 3 [2, 4, 0, 2]
     (.ok false, [⟨1, 0, none, some (.read 1)⟩, ⟨2, 1, none, none⟩,
                  ⟨3, 2, some [7, 9], some (.content 2 [2, 3])⟩]) := by decide
 example : badFiles [2, 4, 0, 2] [some [1, 2], none, some [], some [7, 9]] = [(1, .read)] := by
+  decide
+
+/-! ### a torrent created from `orig`, verified against a damaged copy -/
+
+/-- **Only bad files.** The torrent was created from `orig`; on disk some files are missing or
+    have the wrong size (none of them a zero-length entry) and every other file has its original
+    content.  Then no content error is ever reported: with a callback `verify` returns whether
+    all files are good and hands the callback exactly one ReadError / VerifyFileSizeError per bad
+    file, in file order, and nothing else; without a callback it raises the error of the first
+    bad file (or returns `True`). -/
+theorem C02_bad_files_only (H : List α → δ) (L : Nat) (hL : 0 < L) (orig : List (List α))
+    (disk : List (Option (List α))) (single pathIsDir : Bool) (hp : ProperPath single pathIsDir)
+    (hyp : NoBadEmpty (orig.map List.length) disk = true)
+    (hsame : ∀ k (hk : k < orig.length), fileError (orig.map List.length) disk k = none →
+      disk.getD k none = some orig[k]) :
+    let sizes := orig.map List.length
+    let stored := (chunks L orig.flatten).map H
+    let cb := verifySeq H L sizes disk stored true single pathIsDir
+    cb.1 = .ok (AllGood sizes disk) ∧
+    excsOf cb.2 = (badFiles sizes disk).map excOf ∧
+    (verifySeq H L sizes disk stored false single pathIsDir).1 =
+      (match (badFiles sizes disk).head? with
+        | some e => .error (excOf e)
+        | none => .ok true) := by
+  intro sizes stored cb
+  have hlen : stored.length = nPieces L sizes.sum := length_stored H L hL orig
+  obtain ⟨hres, hfile, hcont, hkinds, _, hexc, _⟩ :=
+    C02_callback H L hL sizes disk stored single pathIsDir hp hyp hlen
+  have hnocb := C02_nocb_first_exception H L hL sizes disk stored single pathIsDir hp hyp hlen
+  rw [mismatches_eq_nil H L hL orig disk hsame, List.map_nil] at hcont
+  have hexcs : excsOf cb.2 = (badFiles sizes disk).map excOf :=
+    eq_of_filters _ _ _ _ hfile hcont hkinds
+  refine ⟨?_, hexcs, ?_⟩
+  · show cb.1 = _
+    rw [hres]
+    congr 1
+    by_cases hg : AllGood sizes disk = true
+    · rw [hg]
+      cases hs : SpecOk H L sizes disk stored with
+      | true => rfl
+      | false =>
+        obtain ⟨c, hc, hce⟩ := hexc hs
+        obtain ⟨e, he⟩ := Option.isSome_iff_exists.mp hce
+        have : e ∈ excsOf cb.2 := List.mem_filterMap.mpr ⟨c, hc, he⟩
+        rw [hexcs, badFiles_eq_nil_of_good sizes disk hg] at this
+        cases this
+    · unfold SpecOk; simp [hg]
+  · rw [hnocb]
+    show (match (excsOf cb.2).head? with
+        | some e => VResult.error e
+        | none => VResult.ok true) = _
+    rw [hexcs]
+    cases badFiles sizes disk with
+    | nil => rfl
+    | cons e es => rfl
+
+/-- **One bad file.** The torrent was created from `orig`; on disk every file but `j` is as in
+    `orig`, and file `j` (not a zero-length entry) is missing, resp. has a different length.
+    Then without a callback `verify` raises ReadError, resp. VerifyFileSizeError, naming file `j`;
+    with a callback it returns `False` and the only exception handed to the callback is that
+    one, exactly once. -/
+theorem C02_single_bad_file (H : List α → δ) (L : Nat) (hL : 0 < L) (orig : List (List α))
+    (disk : List (Option (List α))) (single pathIsDir : Bool) (hp : ProperPath single pathIsDir)
+    (j : Nat) (hj : j < orig.length) (hpos : 0 < orig[j].length)
+    (hrest : ∀ k (hk : k < orig.length), k ≠ j → disk[k]? = some (some orig[k])) :
+    let sizes := orig.map List.length
+    let stored := (chunks L orig.flatten).map H
+    let nocb := verifySeq H L sizes disk stored false single pathIsDir
+    let cb := verifySeq H L sizes disk stored true single pathIsDir
+    (disk.getD j none = none →
+      nocb.1 = .error (.read j) ∧ cb.1 = .ok false ∧ excsOf cb.2 = [.read j]) ∧
+    (∀ c, disk.getD j none = some c → c.length ≠ orig[j].length →
+      nocb.1 = .error (.size j) ∧ cb.1 = .ok false ∧ excsOf cb.2 = [.size j]) := by
+  intro sizes stored nocb cb
+  have key : ∀ e, fileError sizes disk j = some e →
+      nocb.1 = .error (excOf (j, e)) ∧ cb.1 = .ok false ∧ excsOf cb.2 = [excOf (j, e)] := by
+    intro e hbad
+    obtain ⟨hyp, hsame, hbf⟩ := single_bad_setup orig disk j hj hpos e hrest hbad
+    obtain ⟨h1, h2, h3⟩ := C02_bad_files_only H L hL orig disk single pathIsDir hp hyp hsame
+    refine ⟨?_, ?_, ?_⟩
+    · show (verifySeq H L sizes disk stored false single pathIsDir).1 = _
+      rw [h3, hbf]; rfl
+    · show (verifySeq H L sizes disk stored true single pathIsDir).1 = _
+      rw [h1]
+      congr 1
+      cases hg : AllGood (orig.map List.length) disk with
+      | false => rfl
+      | true =>
+        have := badFiles_eq_nil_of_good _ disk hg
+        rw [hbf] at this; cases this
+    · show excsOf (verifySeq H L sizes disk stored true single pathIsDir).2 = _
+      rw [h2, hbf]; rfl
+  constructor
+  · intro hnone
+    exact key .read (by unfold fileError; rw [hnone])
+  · intro c hc hne
+    exact key .size (by
+      unfold fileError; rw [hc]
+      simp only [sizes, sizeOf_map_length orig j hj, hne, if_false])
+
+/-! non-vacuity of `C02_single_bad_file` / `C02_bad_files_only`: file 1 missing, resp. too short -/
+def exOrig : List (List Nat) := [[1, 2], [3, 4, 5, 6], [], [7, 8]]
+
+example : (1 < exOrig.length) ∧ (∃ h : 1 < exOrig.length, 0 < exOrig[1].length) ∧
+    (∀ k (hk : k < exOrig.length), k ≠ 1 →
+      [some [1, 2], none, some [], some [7, 8]][k]? = some (some exOrig[k])) ∧
+    ([some [1, 2], none, some [], some [7, 8]] : List (Option (List Nat))).getD 1 none = none := by
+  decide
+example : (∀ k (hk : k < exOrig.length), k ≠ 1 →
+      [some [1, 2], some [3, 4], some [], some [7, 8]][k]? = some (some exOrig[k])) ∧
+    ([some [1, 2], some [3, 4], some [], some [7, 8]] : List (Option (List Nat))).getD 1 none
+      = some [3, 4] ∧ [3, 4].length ≠ exOrig[1].length := by
+  decide
+example : NoBadEmpty (exOrig.map List.length) [some [1, 2], none, some [], none] = true ∧
+    (∀ k (hk : k < exOrig.length),
+      fileError (exOrig.map List.length) [some [1, 2], none, some [], none] k = none →
+      ([some [1, 2], none, some [], none] : List (Option (List Nat))).getD k none
+        = some exOrig[k]) := by
   decide
 
 end Torf.C02
